@@ -20,13 +20,13 @@ def make_case(rng, P, ops=("modify",), producer=None, ctx=None, lf_only=True, nf
         A, B = clean(A), clean(B)
         A = {p: v for p, v in A.items()}
         # files must stay non-degenerate after cleaning
-        if any(not l for p, (l, m) in A.items()) or any(not l for p, (l, m) in B.items()):
+        if any(not l and ch.get(p) != "delete-empty" for p, (l, m) in A.items()) or any(not l and ch.get(p) != "create-empty" for p, (l, m) in B.items()):
             continue
         if any(p in B and A[p][0] == B[p][0] and A[p][1] == B[p][1] for p in A):
             continue
         break
     producer = producer or rng.choice(["gnu-u", "gnu-c", "git", "emit-u", "emit-c"])
-    if any(k in ("rename", "chmod") for k in ch.values()):
+    if any(k in ("rename", "chmod", "create-empty", "delete-empty", "copy-to") for k in ch.values()):
         producer = "git"
     ctx = ctx if ctx is not None else rng.choice([0, 1, 2, 3, 3])
     if producer == "gnu-u": text = P.gnu_tree(A, B, "u", ctx)
